@@ -346,6 +346,35 @@ pub fn drops_drain_nth<const C: usize, const R: usize>() {
     all_dropped_once(C * R);
 }
 
+/// remove_col / pop_col whose drain is partially consumed (from either end) and then LEAKED: elements
+/// may be leaked, but no token may be dropped twice (the Tok destructor asserts it) - neither when the
+/// taken tokens go out of scope nor when the array is dropped afterwards.
+pub fn drops_leak_col<const C: usize, const R: usize>() {
+    {
+        let mut t = TooDee::from_vec(C, R, toks(C * R, 0));
+        let rc: usize = kani::any();
+        kani::assume(rc < C);
+        let front: usize = kani::any();
+        let back: usize = kani::any();
+        kani::assume(front <= R && back <= R);
+        {
+            let mut d = if kani::any() { t.remove_col(rc) } else { t.pop_col().unwrap() };
+            let mut i = 0;
+            while i < front {
+                let _x = d.next();
+                i += 1;
+            }
+            i = 0;
+            while i < back {
+                let _x = d.next_back();
+                i += 1;
+            }
+            core::mem::forget(d);
+        }
+        assert!(wf(&t), "C12 shape invariant after leaking a partially consumed DrainCol");
+    }
+}
+
 // ---------------------------------------------------------------- caller code observing the array mid-operation (C11)
 /// An iterator that, on every call, looks at the array it is being inserted into through a raw
 /// pointer and asserts what an observer of a caught panic at this point would see: the shape
@@ -445,6 +474,18 @@ pub fn spy_insert_row_lying<const C: usize, const R: usize, const N: usize, cons
     let spy = Spy::<L> { t: &t as *const _, items: [1u8; L], front: 0, back: 0, reported: C };
     t.insert_row(idx, spy);
     assert!(wf(&t));
+    // fewer items than reported: the row cannot have been filled, so a normal return publishes stale cells
+    kani::cover!(true, "RETURNED-NORMALLY");
+}
+/// same for insert_col / push_col: an iterator that reports R items but yields only L < R
+pub fn spy_insert_col_lying<const C: usize, const R: usize, const N: usize, const L: usize>() {
+    let mut t = mk_distinct::<N>(C, R);
+    let idx: usize = kani::any();
+    kani::assume(idx <= C);
+    let spy = Spy::<L> { t: &t as *const _, items: [1u8; L], front: 0, back: 0, reported: R };
+    t.insert_col(idx, spy);
+    assert!(wf(&t));
+    kani::cover!(true, "RETURNED-NORMALLY");
 }
 pub fn spy_insert_row_empty_huge() {
     let mut t: TooDee<u8> = TooDee::default();
@@ -712,6 +753,12 @@ h!(k_spy_insert_col_2x2, spy_insert_col, 2, 2, 4);
 h!(k_spy_insert_col_4x1, spy_insert_col, 4, 1, 4);
 h!(k_spy_insert_col_2x3, spy_insert_col, 2, 3, 6);
 hp!(k_spy_insert_row_lying_short, spy_insert_row_lying, 2, 2, 4, 1);
+hp!(k_spy_insert_col_lying_short_2x3, spy_insert_col_lying, 2, 3, 6, 2);
+hp!(k_spy_insert_col_lying_short_2x2, spy_insert_col_lying, 2, 2, 4, 1);
+hp!(k_spy_insert_col_lying_none_2x2, spy_insert_col_lying, 2, 2, 4, 0);
+hl!(k_drops_leak_col_2x2, drops_leak_col, 2, 2);
+hl!(k_drops_leak_col_3x2, drops_leak_col, 3, 2);
+h!(k_drops_leak_col_1x2, drops_leak_col, 1, 2);
 hp!(k_spy_insert_row_empty_huge, spy_insert_row_empty_huge,);
 
 h!(k_copy_defaults_window_2x2, copy_defaults_window, 2, 2, 12, 4);
